@@ -214,19 +214,27 @@ class Sched:
                 t.start()
                 self._wait_parked(tid)
             files = [f for _, f in TARGETS[self.target_name]]
+            dirty = set()
             for st in steps:
                 if st["k"] == "ver":
+                    # the file is materialised lazily: only a `compute` step reads it
                     self.impl.ver[files[st["f"]]] = st["v"]
-                    self.impl._write(files[st["f"]])
+                    dirty.add(files[st["f"]])
                 elif st["k"] == "deny":
                     if files[st["f"]] != "stat":
                         self.impl.denied[files[st["f"]]] = st["b"]
                 elif st["k"] == "thr" and st["en"]:
+                    if st["pc"] == "w2":
+                        for f in dirty:
+                            self.impl._write(f)
+                        dirty.clear()
                     for kind in GRANTS[st["pc"]]:
                         self._grant(st["tid"], kind)
         except Drift as e:
             drift = str(e)
         finally:
+            for f in list(dirty):
+                self.impl._write(f)
             self.free = True
             for tid in self.go:
                 self.go[tid].set()
@@ -285,7 +293,7 @@ def gen_case(rng, family):
         while len(picks) < n:
             picks += [t] * rng.randrange(1, 9)
             t = 1 - t
-    picks += [0, 1] * 60
+    picks += [0, 1] * 45
     return {"target": target, "progs": progs, "schedule": with_versions(picks, nfun), "family": family}
 
 
@@ -321,7 +329,7 @@ def corpus_cases():
     return [f1, f2, f3, f4]
 
 
-def enumerate_one_call_vs_block(target):
+def enumerate_one_call_vs_block(target, funs=(0,)):
     """All interleavings of one plain call (thread 1) against one enter/exit pair with an empty
     body (thread 0), at the granularity of the shared-state bytecodes: thread-local model
     steps (act0, del0, release, ret) are glued to their predecessor."""
@@ -342,7 +350,7 @@ def enumerate_one_call_vs_block(target):
             else:
                 picks += a_units[ia]
                 ia += 1
-        for f in range(nfun):
+        for f in funs:
             yield {"target": target, "family": "enum:%s" % target,
                    "progs": [[["acquire"], ["exit"]], [["call", f]]],
                    "schedule": with_versions(picks + [1, 1, 1, 0, 0, 0], nfun)}
@@ -430,7 +438,7 @@ def correspond_concurrent(ctx, res, cases=None):
     known = {f["id"] for f in ctx.findings}
     if cases is None:
         cases = corpus_cases()
-        n = ctx.n(300, 3000)
+        n = ctx.n(500, 3000)
         for i in range(n):
             cases.append(gen_case(ctx.rng, SCHED_FAMILIES[i % len(SCHED_FAMILIES)]))
         exhaustive = None
@@ -465,7 +473,7 @@ def correspond_concurrent(ctx, res, cases=None):
             judge(case, impl_out, drift, m, sp, res, known)
         if exhaustive:
             res.extra["exhaustive_schedules"] = ("all %d interleavings of one plain call against one enter/exit pair "
-                                                 "(both target objects, every function)" % exhaustive)
+                                                 "(platform object with name()/stat, front-end object with memory_info()/statm)" % exhaustive)
     finally:
         sys.setswitchinterval(old_switch)
         impl.close()
